@@ -10,7 +10,7 @@ import time
 from . import props as P
 from . import registry as R
 from .common import (BUILD, COQ, COQ_FLAGS, EVIDENCE, GEN, REPLAYS, REPO, VERIF, CODECS, PROFILES,
-                     CheckError, build_harness, coq_make, coqc, dump_tables, file_hash, log, sh,
+                     CheckError, DERIVE_FALLBACK, build_harness, coq_make, coqc, dump_tables, file_hash, log, sh,
                      write_real_v)
 from .gen import CodecInfo
 from .vm import (SD, OPS, coq_mismatches_multi, op_repr, parse_output, run_rust, script_text,
@@ -393,7 +393,11 @@ def write_evidence(ctx, spec, wall):
         "refinement_scope": getattr(ctx, "scope", None),
         "generator_distribution": {k: v for k, v in sorted(ctx.dist.items()) if not k.startswith("op/")},
         "ops_exercised": {k[3:]: v for k, v in sorted(ctx.dist.items()) if k.startswith("op/")},
-        "notes": ctx.notes + spec.get("notes", []),
+        "notes": ctx.notes + spec.get("notes", []) + (
+            ["bio-seq-derive internals (parse_width, dna_seq, iupac_seq) could not be included by path for the %s "
+             "build: the macro and width tables were synthesised from their specification and the compiled "
+             "macros are validated through the generated programs only" % "/".join(sorted(DERIVE_FALLBACK))]
+            if DERIVE_FALLBACK else []),
         "exhaustive": bool(spec.get("exhaustive", False)),
     }
     ev = {
